@@ -1,6 +1,8 @@
 """C03: the bin-count lower bound never exceeds an achievable packing."""
 import itertools
 
+import numpy as np
+
 from mc.core import Ctx, pmap
 from models import fits as F
 from props import pack_common as C
@@ -15,6 +17,7 @@ def multisets(W, H, k):
 
 
 def job(a):
+    from moptipyapps.binpacking2d.instance import Instance
     from moptipyapps.binpacking2d.objectives.bin_count import BinCount
     W, H, k, shard, nshards = a
     ninst = 0
@@ -38,9 +41,17 @@ def job(a):
             variants.append([[t[0], t[1], 1] for t in ms])
         lbs = []
         try:
+            # the merged rows also as an integer array in the narrowest type
+            # (callers may pass arrays; the bound must be valid then, too)
+            mx = max(max(r) for r in merged)
+            nt = next(t for t in (np.int8, np.int16, np.int32, np.int64)
+                      if np.iinfo(t).max >= mx)
+            ai = Instance("v", W, H, np.array(merged, nt))
             for rows in variants:
                 inst = C.make_instance(W, H, rows)
                 lbs.append(int(inst.lower_bound_bins))
+            lbs.append(int(ai.lower_bound_bins))
+            variants = variants + [merged]
         except Exception as e:  # noqa  a valid instance must be constructible
             bads.append(("Instance|constructor raises for a valid instance",
                          W, H, merged, f"{type(e).__name__}: {e}", "ok"))
